@@ -15,7 +15,7 @@ ASSUMPTIONS = ['case conversions are asserted only when they preserve the length
                'replace with an empty search string: text only (an empty match has no first character)',
                'empty separators are outside the claim']
 
-CFG = gen.Cfg(esc=False, odd=0.1, invalid=True, incomplete=False, max_ops=3, alphabet=['a', 'a', 'b', ' ', '-', ':', '\t', '\n', '\r\n'], min_text=3, max_text=12,
+CFG = gen.Cfg(esc=True, odd=0.1, invalid=True, incomplete=False, max_ops=3, alphabet=['a', 'a', 'b', ' ', '-', ':', '\t', '\n', '\r\n'], min_text=3, max_text=12,
               rich=True, ansi_ctor=False)
 WS = ' \t\n\r\v\f'
 
